@@ -55,6 +55,16 @@ class Sym:
         return f'<{self.name}>'
 
 
+_KNOWN_TYPES = {
+    'int': int, 'bool': bool, 'str': str, 'dict': dict,
+    'list': list, 'tuple': tuple, 'set': (set, frozenset),
+    'frozenset': frozenset, 'float': float,
+    'Mapping': dict, 'MutableMapping': dict,
+    'Set': (set, frozenset), 'MutableSet': set,
+    'Sequence': (list, tuple, str), 'Sized': (
+        dict, list, tuple, set, frozenset, str)}
+
+
 EFFECT_CALLS = {'warn', 'info', 'debug', 'warning', 'error', 'getLogger',
                 'print'}
 
@@ -260,6 +270,7 @@ class Machine:
                             # model of its `__contains__`, if any
                             if '__contains__' not in self.stubs:
                                 raise Unknown(au.src(e))
+                            self.receiver = right
                             ok = bool(self.stubs['__contains__'](
                                 self, e, [left], {}))
                         else:
@@ -551,6 +562,7 @@ class Machine:
             if isinstance(v, Sym):
                 if '__len__' not in self.stubs:
                     raise Unknown(au.src(e))
+                self.receiver = v
                 return self.stubs['__len__'](self, e, [], {})
             return len(v)
         if n in ('min', 'max') and e.args and not e.keywords:
@@ -567,14 +579,7 @@ class Machine:
             v = self.ev(e.args[0])
             types = e.args[1].elts if isinstance(
                 e.args[1], ast.Tuple) else [e.args[1]]
-            known = {
-                'int': int, 'bool': bool, 'str': str, 'dict': dict,
-                'list': list, 'tuple': tuple, 'set': (set, frozenset),
-                'frozenset': frozenset, 'float': float,
-                'Mapping': dict, 'MutableMapping': dict,
-                'Set': (set, frozenset), 'MutableSet': set,
-                'Sequence': (list, tuple, str), 'Sized': (
-                    dict, list, tuple, set, frozenset, str)}
+            known = _KNOWN_TYPES
             if isinstance(v, (Sym, tuple)) and not isinstance(v, tuple):
                 raise Unknown(au.src(e))
             out = False
@@ -885,14 +890,14 @@ class Machine:
             subj = self.ev(s.subject)
             for c in s.cases:
                 p = c.pattern
-                if isinstance(p, ast.MatchClass) and not p.patterns:
-                    t = au.src(p.cls)
-                    ok = {'int': isinstance(subj, int) and not isinstance(
-                        subj, bool) or isinstance(subj, bool),
-                        'bool': isinstance(subj, bool),
-                        'str': isinstance(subj, str)}.get(t)
-                    if ok is None:
-                        raise Unknown(f'match {t}')
+                if isinstance(p, ast.MatchClass) and not p.patterns \
+                        and not p.kwd_patterns:
+                    t = au.src(p.cls).rsplit('.', 1)[-1]
+                    if t not in _KNOWN_TYPES or isinstance(subj, Sym) or (
+                            isinstance(subj, tuple) and subj[:1] in (
+                                ('closure',), ('lambda',), ('class',))):
+                        raise Unknown(f'match {au.src(p.cls)}')
+                    ok = isinstance(subj, _KNOWN_TYPES[t])
                 elif isinstance(p, ast.MatchValue):
                     ok = subj == self.ev(p.value)
                 elif isinstance(p, ast.MatchSingleton):
@@ -901,6 +906,19 @@ class Machine:
                     ok = True
                     if p.name:
                         self.env[p.name] = subj
+                elif isinstance(p, ast.MatchOr) and all(
+                        isinstance(q, ast.MatchValue) or (
+                            isinstance(q, ast.MatchClass)
+                            and not q.patterns and not q.kwd_patterns
+                            and au.src(q.cls).rsplit('.', 1)[-1]
+                            in _KNOWN_TYPES) for q in p.patterns):
+                    if isinstance(subj, Sym):
+                        raise Unknown('match on an opaque value')
+                    ok = any(
+                        subj == self.ev(q.value) if isinstance(
+                            q, ast.MatchValue) else isinstance(
+                                subj, _KNOWN_TYPES[au.src(q.cls).rsplit(
+                                    '.', 1)[-1]]) for q in p.patterns)
                 else:
                     raise Unknown('match pattern')
                 if ok:
